@@ -53,6 +53,23 @@ def maporder_across_processes(c):
 
 
 CONFIG = {
+    "C16": {
+        "profiles": BOTH,
+        "rule": "one evaluation = one time expression, accessor call or unit conversion; distinct non-trivial = distinct instants / durations / zone names / unit pairs",
+        "floors": {"quick": {"_evaluations": 500000, "zones_exercised": 500, "accessor_zoned": 100000, "accessor_utc": 50000, "unknown_zone_checks": 500,
+                             "law/(t+d)-d==t": 5000, "duration_accessor_checks": 50000, "unit_conversions": 10000, "unit_rejections": 500},
+                   "thorough": {"_evaluations": 5000000}},
+        "assumptions": ASSUME_COMMON + [
+            "chrono_tz is trusted for the time-zone database (UTC offsets per instant) only; civil fields come from an independent days-to-civil algorithm",
+            "unit factors are compared with the exact definitions to 1e-6 relative (the uom crate carries seven-significant-digit factors); identity / inverse / transitivity to 1e-12",
+            "arithmetic laws apply whenever the intermediate result is representable"],
+        "technique": "runtime monitoring: algebraic-law monitors over observed time arithmetic, an independent civil-calendar model (Hinnant) with tz offsets from chrono_tz for every "
+                     "accessor and zone, truncation model for duration accessors, exact-definition table plus identity / inverse / transitivity laws for unit conversion",
+        "level_text": "Instants from the whole representable range (pool boundaries, year boundaries 1..9999, leap days, spring/autumn hours 1990..2037, random seconds and milliseconds), "
+                      "durations incl. extremes; every one of the ~600 IANA zone names plus invalid names x ten accessors; zone-less form vs 'UTC'; every unit pair within and across the four "
+                      "categories over 23 magnitudes each. Exploration only.",
+        "level_note": "trusts the 25-line civil calendar, chrono_tz offsets and the unit definition table in the harness",
+    },
     "C15": {
         "profiles": BOTH,
         "rule": "one evaluation = one built-in call (variable or literal form); distinct non-trivial = distinct (string, needle) pairs with a string of >= 2 characters, "
